@@ -15,6 +15,7 @@ Failing(rec) == {k \in DOMAIN rec : ~rec[k]}
 Idx(n)      == TLCEval([i \in 1..n |-> i])
 PosWhere(s, Test(_)) == SelectSeq(Idx(Len(s)), LAMBDA i : Test(s[i]))
 
+Waiter(e) == IF "w" \in DOMAIN e THEN e.w ELSE 0
 HasTask(e) == e.ev \in {"submit", "submitret", "taskstart", "taskend"}
 
 \* one left-to-right pass over the history with the sets of submitted / returned / started /
@@ -39,14 +40,16 @@ Monitor(h, bound) ==
             F(i + 1, [m EXCEPT !.ended = @ \cup {e.task}, !.cur = @ - 1, !.nend = @ + 1,
                                !.once = @ /\ e.task \in m.started /\ e.task \notin m.ended])
           ELSE IF e.ev = "waitcall" THEN
-            F(i + 1, [m EXCEPT !.atcall = m.returned, !.waiting = TRUE, !.waitshape = @ /\ ~m.waiting])
+            \* several goroutines may wait at once (w: the waiter, 0 = the main goroutine): each Wait is a barrier for
+            \* everything whose Submit had returned before that Wait was called
+            F(i + 1, [m EXCEPT !.atcall = {x \in @ : x[1] # Waiter(e)} \cup {<<Waiter(e), t>> : t \in m.returned},
+                               !.waiting = @ \cup {Waiter(e)}, !.waitshape = @ /\ Waiter(e) \notin m.waiting])
           ELSE IF e.ev = "waitret" THEN
-            \* everything whose Submit had returned before Wait was called must have finished
-            F(i + 1, [m EXCEPT !.waiting = FALSE, !.waitshape = @ /\ m.waiting,
-                               !.barrier = @ /\ m.atcall \subseteq m.ended,
-                               !.visible = @ /\ e.seen = e.submitted])
+            F(i + 1, [m EXCEPT !.waiting = @ \ {Waiter(e)}, !.waitshape = @ /\ Waiter(e) \in m.waiting,
+                               !.barrier = @ /\ \A x \in m.atcall : x[1] = Waiter(e) => x[2] \in m.ended,
+                               !.visible = @ /\ ("seen" \in DOMAIN e => e.seen = e.submitted)])
           ELSE F(i + 1, m)
-  IN F(1, [submitted |-> {}, returned |-> {}, started |-> {}, ended |-> {}, atcall |-> {}, waiting |-> FALSE,
+  IN F(1, [submitted |-> {}, returned |-> {}, started |-> {}, ended |-> {}, atcall |-> {}, waiting |-> {},
            nret |-> 0, nend |-> 0, bp |-> TRUE, full |-> FALSE,
            cur |-> 0, maxfl |-> 0, once |-> TRUE, retok |-> TRUE, barrier |-> TRUE, visible |-> TRUE, waitshape |-> TRUE])
 
@@ -73,7 +76,7 @@ C12_Clauses(cfg, D) ==
    \* ... and it does block: never more returned-but-unfinished tasks than queue slots plus workers
    backpressure |-> D.m.bp,
    \* Wait returns only after every previously submitted task has finished ...
-   barrier     |-> D.m.barrier /\ D.m.waitshape /\ ~D.m.waiting,
+   barrier     |-> D.m.barrier /\ D.m.waitshape /\ D.m.waiting = {},
    \* ... with their effects visible to the waiter (plain writes read back after Wait)
    visible     |-> D.m.visible,
    \* after Wait and Close all of the pool's goroutines terminate
@@ -95,6 +98,7 @@ PoolHits(cfg, D) ==
     beyondQueue    |-> Cardinality(D.m.submitted) > 2 * NW(cfg),
     queueFull      |-> D.m.full,           \* a Submit was called while queue and workers were full: it had to block
     paced          |-> Open(cfg),
+    overlappingWaits |-> "selfwait" \in DOMAIN cfg /\ cfg.selfwait,
     earlyClose     |-> "early" \in DOMAIN cfg /\ cfg.early,
     overlapped     |-> D.m.maxfl > 1,
     nonPositive    |-> cfg.W <= 0 ]
